@@ -59,6 +59,9 @@ def offOf (cap : Nat) (s : Bytes) : Nat := min s.length cap
 theorem bufOf_nil (cap : Nat) : bufOf cap [] = List.replicate cap 0 := by
   simp [bufOf]
 
+theorem offOf_nil (cap : Nat) : offOf cap [] = 0 := by
+  simp [offOf]
+
 theorem bufOf_of_length_eq (cap : Nat) (s : Bytes) (h : s.length = cap) : bufOf cap s = s := by
   simp only [bufOf, h, Nat.sub_self, List.replicate_zero, List.append_nil]
   exact List.take_of_length_le (by omega)
